@@ -1,6 +1,7 @@
 from typing import Generator, Sequence
 
 from pbhhg_py import abstract_syntax as AS
+from pbhhg_py import error
 from pbhhg_py import utils
 
 
@@ -15,6 +16,10 @@ class Pipe(AS.Function):
         for evaluation in self._evaluations:
             arg = yield from evaluation(metadata, argv)
             argv = [arg]
+        if not argv:
+            raise error.UnsuspectedHangeulValueError(
+                metadata, "빈 연결 함수를 인수 없이 호출했습니다."
+            )
         return argv[0]
 
 
